@@ -1,5 +1,5 @@
 (** C12 - placeholder statements (grow). *)
-From Coq Require Import ZArith List Bool.
+From Coq Require Import ZArith List Bool Lia.
 From VD Require Import Base.Bytes Model.Image Model.Screen.
 Import ListNotations.
 Open Scope Z_scope.
@@ -18,3 +18,71 @@ Proof.
   cbn. destruct (screen l); eexists; split; reflexivity || (split; reflexivity).
 Qed.
 Print Assumptions C12_size_after_resize.
+
+From VD Require Import Base.PixFmt Gen.Tables Proofs.ScreenP.
+
+(** The composition theorem.  Starting from a fresh client, after ANY sequence of rectangle updates
+    (any position, any size, any payload the client accepts), desktop-size changes and - with
+    --nocursor - cursor-shape updates, every pixel of the screen equals the reference canvas of the
+    history: the colour most recently sent for it (content cut off by a smaller desktop size is gone),
+    black if none; and the image has the reference size (exactly the announced size after a size change,
+    grown - never shrunk - by later rectangles). *)
+Theorem C12_composition : forall nocursor ops l,
+  Forall (lop_ok nocursor) ops -> lrun (lib0 nocursor) ops = Some l ->
+  let h := sops_of DEFAULT_IMAGE_MODE ops in
+  wf_opt (screen l) /\
+  (forall px py, 0 <= px -> 0 <= py ->
+     get_opt (screen l) px py = fold_left ref_step h (fun _ _ => black) px py) /\
+  size_opt (screen l) = fold_left ref_size h None.
+Proof. exact client_composition. Qed.
+Print Assumptions C12_composition.
+
+(** One update: inside the rectangle the new data, everywhere else exactly the old screen (black where
+    there was none); the canvas afterwards contains both the old canvas and the rectangle. *)
+Theorem C12_update_outside_unchanged : forall scr x y u,
+  wf_opt scr -> wf_image u -> 0 <= x -> 0 <= y ->
+  let R := placed scr x y u in
+  wf_image R /\
+  iw R = match scr with None => x + iw u | Some s => Z.max (x + iw u) (iw s) end /\
+  ih R = match scr with None => y + ih u | Some s => Z.max (y + ih u) (ih s) end /\
+  forall px py, 0 <= px -> 0 <= py ->
+    get R px py = if in_box x y (iw u) (ih u) px py then get u (px - x) (py - y)
+                  else match scr with Some s => get s px py | None => black end.
+Proof. exact placed_spec. Qed.
+Print Assumptions C12_update_outside_unchanged.
+
+(** [placed] is what updateRectangle computes (no cursor shape held). *)
+Theorem C12_update_is_placed : forall l x y w h data u,
+  data <> [] -> frombytes (l_mode l) w h data = Some u -> cur l = None ->
+  update_rect l x y w h data = Some (with_screen l (Some (placed (screen l) x y u))).
+Proof. exact update_rect_placed. Qed.
+Print Assumptions C12_update_is_placed.
+
+(** A desktop-size change keeps every earlier pixel that still fits and blanks the rest. *)
+Theorem C12_resize_preserves : forall scr w h,
+  wf_opt scr -> 0 <= w -> 0 <= h ->
+  let R := resized scr w h in
+  wf_image R /\ iw R = w /\ ih R = h /\
+  forall px py, 0 <= px -> 0 <= py ->
+    get R px py = if (px <? w) && (py <? h) then get_opt scr px py else black.
+Proof. exact resized_spec. Qed.
+Print Assumptions C12_resize_preserves.
+
+(** The hypotheses are met by a real history: first rectangle off the origin, growth, overlap, shrink. *)
+Example C12_history_nonvacuous :
+  let px (r g b : Z) := [r; g; b; 0] in
+  let ops := [ LUpdate 1 1 1 1 (px 10 20 30);
+               LUpdate 0 0 3 1 (px 1 1 1 ++ px 2 2 2 ++ px 3 3 3);
+               LCursor 0 0 1 1 (px 9 9 9) [128];
+               LResize 2 2;
+               LUpdate 1 0 2 2 (px 4 4 4 ++ px 5 5 5 ++ px 6 6 6 ++ px 7 7 7) ] in
+  Forall (lop_ok true) ops /\
+  exists l, lrun (lib0 true) ops = Some l /\
+    size_opt (screen l) = Some (3, 2) /\
+    map (fun y => map (fun x => get_opt (screen l) x y) [0; 1; 2]) [0; 1] =
+      [[(1, 1, 1); (4, 4, 4); (5, 5, 5)]; [(0, 0, 0); (6, 6, 6); (7, 7, 7)]].
+Proof.
+  cbv zeta. split.
+  - repeat constructor; cbn; lia.
+  - eexists. split; [vm_compute; reflexivity|]. split; vm_compute; reflexivity.
+Qed.
